@@ -63,14 +63,14 @@ std::string read_array_raw(const DataArray &da, bool &ok) {
     if (n > (1u << 22)) { ok = false; return "<too big>"; }
     NDSize off(ext.size(), 0);
     if (dt == DataType::String) {
-        std::vector<std::string> v((size_t) n);
+        std::vector<std::string> v((size_t) n, std::string("\x01never-assigned"));     // what a read leaves untouched stays visible
         da.getDataDirect(dt, v.data(), ext, off);
         std::string out;
         for (auto &s : v) { out += std::to_string(s.size()); out += "'"; out += s; out += "',"; }
         return out;
     }
     size_t es = data_type_to_size(dt);
-    std::string buf((size_t) n * es, '\0');
+    std::string buf((size_t) n * es, '\x5a');     // not zero: elements a read leaves untouched must not pass for stored zeros
     da.getDataDirect(dt, &buf[0], ext, off);
     return buf;
 }
